@@ -533,9 +533,9 @@ func runValidator(c *kit.Ctx, r *kit.Rand, m int) {
 }
 
 func partMethods(c *kit.Ctx) {
-	n := 40
+	n := 36
 	if c.Thorough() {
-		n = 400
+		n = 200
 	}
 	for m := 0; m < 5; m++ {
 		for i := 0; i < n; i++ {
@@ -893,9 +893,9 @@ func runRounds(c *kit.Ctx, r *kit.Rand, nOps int) {
 }
 
 func partRounds(c *kit.Ctx) {
-	n, ops := 60, 8
+	n, ops := 50, 8
 	if c.Thorough() {
-		n, ops = 500, 14
+		n, ops = 250, 12
 	}
 	for i := 0; i < n; i++ {
 		runRounds(c, c.Rand.Fork(), ops)
